@@ -93,6 +93,7 @@ class Session:
     def run_guarded(self, case):
         """run_case under the per-case watchdog; a trip skips the case as inconclusive"""
         limit = getattr(self.prop, "CASE_TIMEOUT", 30)
+        t0 = time.time()
         try:
             with watchdog(limit):
                 return self.prop.run_case(case, self.ctx)
@@ -103,6 +104,11 @@ class Session:
             if len(lst) < 3:
                 lst.append(core.to_jsonable(case))
             return []
+        finally:
+            dt = time.time() - t0
+            if dt > 5.0:
+                # cost profile for the evidence: how many cases took longer than 5 s in this shard
+                self.ctx.extra["cases_slower_than_5s"] = self.ctx.extra.get("cases_slower_than_5s", 0) + 1
 
 
 # --------------------------------------------------------------------------------------
